@@ -143,6 +143,7 @@ func runReplay(path string) int {
 	}
 	env.Workers = 4
 	env.sem = make(chan struct{}, 4)
+	env.forProperty(p.Property)
 	c := newCheck(p.Property, "quick", p.Seed, env)
 	obs := p.Observed
 	q := clonePlan(p)
